@@ -8,6 +8,8 @@ use std::io::Read;
 #[derive(Debug, Clone, PartialEq)]
 pub enum RefErr {
     Eof,
+    /// a declared element count exceeds the bytes that remain (cannot be a valid encoding)
+    CountTooBig,
     BadTag(u8),
     Bad(String),
 }
@@ -19,11 +21,13 @@ pub struct Rd<'a> {
     /// atom cache view for ATOM_CACHE_REF (header position -> atom text), when reading under a dist header
     pub cache: Option<&'a [String]>,
     pub depth: usize,
+    /// which tags were met at term positions (index = tag); slot 0 = a Latin-1 atom tag carried a byte >= 0x80
+    pub tags: [bool; 256],
 }
 
 impl<'a> Rd<'a> {
     pub fn new(b: &'a [u8]) -> Self {
-        Rd { b, p: 0, cache: None, depth: 0 }
+        Rd { b, p: 0, cache: None, depth: 0, tags: [false; 256] }
     }
     pub fn rest(&self) -> &'a [u8] {
         &self.b[self.p..]
@@ -83,6 +87,13 @@ pub fn read_term(r: &mut Rd) -> RRes<RefVal> {
 
 fn read_term_inner(r: &mut Rd) -> RRes<RefVal> {
     let tag = r.u8()?;
+    r.tags[tag as usize] = true;
+    if (tag == 100 || tag == 115) && r.p < r.b.len() {
+        let (n, off) = if tag == 100 { if r.p + 2 <= r.b.len() { (u16::from_be_bytes([r.b[r.p], r.b[r.p + 1]]) as usize, 2) } else { (0, 0) } } else { (r.b[r.p] as usize, 1) };
+        if r.p + off + n <= r.b.len() && r.b[r.p + off..r.p + off + n].iter().any(|&c| c >= 0x80) {
+            r.tags[0] = true;
+        }
+    }
     Ok(match tag {
         97 => RefVal::int(r.u8()? as i64),
         98 => RefVal::int(r.u32()? as i32 as i64),
@@ -128,7 +139,7 @@ fn read_term_inner(r: &mut Rd) -> RRes<RefVal> {
         105 => {
             let n = r.u32()? as usize;
             if n > r.b.len() - r.p {
-                return Err(RefErr::Eof);
+                return Err(RefErr::CountTooBig);
             }
             let mut v = Vec::with_capacity(n);
             for _ in 0..n {
@@ -145,7 +156,7 @@ fn read_term_inner(r: &mut Rd) -> RRes<RefVal> {
         108 => {
             let n = r.u32()? as usize;
             if n > r.b.len() - r.p {
-                return Err(RefErr::Eof);
+                return Err(RefErr::CountTooBig);
             }
             let mut v = Vec::with_capacity(n);
             for _ in 0..n {
@@ -187,7 +198,7 @@ fn read_term_inner(r: &mut Rd) -> RRes<RefVal> {
         116 => {
             let n = r.u32()? as usize;
             if n > r.b.len() - r.p {
-                return Err(RefErr::Eof);
+                return Err(RefErr::CountTooBig);
             }
             let mut v = Vec::with_capacity(n);
             for _ in 0..n {
@@ -290,7 +301,7 @@ fn read_term_inner(r: &mut Rd) -> RRes<RefVal> {
                 return Err(RefErr::Bad("fun pid".into()));
             }
             if (num_free as usize) > r.b.len() - r.p {
-                return Err(RefErr::Eof);
+                return Err(RefErr::CountTooBig);
             }
             let mut free = Vec::new();
             for _ in 0..num_free {
@@ -314,7 +325,19 @@ pub fn ref_decode(b: &[u8]) -> RRes<RefVal> {
     Ok(v)
 }
 
+/// Tags used at term positions of a valid `131 ++ term` encoding (see `Rd::tags`).
+pub fn scan_tags(b: &[u8]) -> [bool; 256] {
+    let mut tags = [false; 256];
+    let _ = ref_decode_prefix_t(b, &mut tags);
+    tags
+}
+
 pub fn ref_decode_prefix(b: &[u8]) -> RRes<(RefVal, &[u8])> {
+    let mut t = [false; 256];
+    ref_decode_prefix_t(b, &mut t)
+}
+
+fn ref_decode_prefix_t<'a>(b: &'a [u8], tags: &mut [bool; 256]) -> RRes<(RefVal, &'a [u8])> {
     let mut r = Rd::new(b);
     if r.u8()? != 131 {
         return Err(RefErr::Bad("version".into()));
@@ -330,14 +353,19 @@ pub fn ref_decode_prefix(b: &[u8]) -> RRes<(RefVal, &[u8])> {
         }
         let used = z.total_in() as usize;
         let mut r2 = Rd::new(&out);
-        let v = read_term(&mut r2)?;
+        let v = read_term(&mut r2);
+        tags[80] = true;
+        for i in 0..256 { tags[i] |= r2.tags[i]; }
+        let v = v?;
         if r2.p != out.len() {
             return Err(RefErr::Bad("trailing inside compressed".into()));
         }
         let restp = r.p + used;
         return Ok((v, &b[restp..]));
     }
-    let v = read_term(&mut r)?;
+    let v = read_term(&mut r);
+    for i in 0..256 { tags[i] |= r.tags[i]; }
+    let v = v?;
     Ok((v, &b[r.p..]))
 }
 
